@@ -964,7 +964,10 @@ def run(ck):
     if not tied or suspects:
         directed(ck, bad, suspects)
         if not tied:
-            ck.unchecked('correspondence Morgan model vs chython/algorithms/morgan.py (+ Element.__hash__, Bond.__hash__)', log[-1500:],
+            kinds = sorted({x[0] for x in bad if x}) or ['cases file did not evaluate']
+            where = {'raw': '_morgan on raw dicts', 'mol': 'hash(atom) / int_adjacency / atoms_order of molecules', 'hash': 'tuple hash model',
+                     'writer-keys': 'start atom / first child of _smiles', 'writer': 'canonical string and order of _smiles (writer model)'}
+            ck.unchecked('correspondence model vs implementation: ' + '; '.join(where.get(k, k) for k in kinds), log[-1500:],
                          [repr(x)[:400] for x in bad[:20]])
     ck.extra['proved'] = proved
     ck.extra['tied'] = tied
